@@ -143,12 +143,11 @@ Definition final_answers (obs : list obs_step) : string :=
 Definition ev_default : event := EvDelPolicy "".
 Definition pick (evs : list event) (idx : list nat) : list event := map (fun i => nth i evs ev_default) idx.
 
-Definition count_chars (cs : list ascii) (s : string) : Z :=
-  Z.of_nat (List.length (filter (fun c => existsb (Ascii.eqb c) cs) (list_ascii_of_string s))).
-
 (* one row per case:
-   [id; model agrees; spec holds; nontrivial; spec failure bits; #dup answers; #missing answers;
-    #DoS reference failures; #runs] *)
+   [id; model agrees; spec holds; nontrivial; spec failure bits; #runs;
+    then, over all steps of the first run, how often each answer class was observed:
+    duplicate, missing, bad timestamp, failed validation (WAF); invalid, policy missing, policy
+    invalid, log conf missing, log conf invalid (DoS); usable] *)
 Definition c19_case (id : Z) (enabled : bool) (wkeys : list string) (pkeys : list (string * string))
            (evs : list event) (runs : list (list nat * list obs_step)) : list Z :=
   let st0 := init enabled in
@@ -160,9 +159,11 @@ Definition c19_case (id : Z) (enabled : bool) (wkeys : list string) (pkeys : lis
   let bits := Z.lor bits (if same_final then 0 else 8) in
   let all0 := match runs with r :: _ => flat_map (fun o : obs_step => list_ascii_of_string (snd o)) (snd r) | [] => [] end in
   let nontrivial := existsb (fun c => negb (Ascii.eqb c "N"%char) && negb (Ascii.eqb c "X"%char)) all0 in
+  let cnt (c : ascii) := Z.of_nat (List.length (filter (Ascii.eqb c) all0)) in
   [id; if agree then 1 else 0; if bits =? 0 then 1 else 0; if nontrivial then 1 else 0; bits;
-   count_chars ["D"%char] fin; count_chars ["M"%char] fin;
-   count_chars ["p"%char; "P"%char; "l"%char; "L"%char] fin; Z.of_nat (List.length runs)].
+   Z.of_nat (List.length runs);
+   cnt "D"%char; cnt "M"%char; cnt "T"%char; cnt "F"%char;
+   cnt "I"%char; cnt "p"%char; cnt "P"%char; cnt "l"%char; cnt "L"%char; cnt "0"%char].
 
 (* for --replay: what the model returns, step by step, in the harness's projection *)
 Fixpoint x_trace (st : state) (wkeys : list string) (pkeys : list (string * string)) (evs : list event)
